@@ -253,7 +253,9 @@ func replaceBackBody(name string, updatesOnly bool) func() {
 }
 
 // ---- harness B: Value
-func valueBody(name string, n int, backpressure, lateConsumer bool) func() {
+// backdated: every write carries a write time EARLIER than the one before it (WithWriteTime: a device's own record
+// of when it changed, replayed late; or a clock set back). What a subscriber is owed goes by the order of the writes.
+func valueBody(name string, n int, backpressure, lateConsumer, backdated bool) func() {
 	return func() {
 		val := resource.NewValue(resource.WithInitialValue(msg(0)))
 		ctx, cancel := context.WithCancel(context.Background())
@@ -274,7 +276,11 @@ func valueBody(name string, n int, backpressure, lateConsumer bool) func() {
 		go func() {
 			defer wg.Done()
 			for k := 1; k <= n; k++ {
-				if _, err := val.Set(msg(k)); err != nil {
+				var wo []resource.WriteOption
+				if backdated {
+					wo = append(wo, resource.WithWriteTime(time.Unix(int64(1000-k), 0)))
+				}
+				if _, err := val.Set(msg(k), wo...); err != nil {
 					werr = append(werr, fmt.Sprintf("Set(%d): %v", k, err))
 				}
 			}
@@ -660,13 +666,17 @@ func main() {
 		}
 		for _, late := range []bool{false, true} {
 			name := fmt.Sprintf("value-lossy/n=%d/late=%v", n, late)
-			h.Sched(name, q, -1, valueBody(name, n, false, late), hx.StdOracle)
+			h.Sched(name, q, -1, valueBody(name, n, false, late, false), hx.StdOracle)
 			name = fmt.Sprintf("value-backpressure/n=%d/late=%v", n, late)
 			if late && n > 2 {
 				continue
 			}
-			h.Sched(name, q, -1, valueBody(name, n, true, late), hx.StdOracle)
+			h.Sched(name, q, -1, valueBody(name, n, true, late, false), hx.StdOracle)
 		}
+	}
+	for _, bp := range []bool{false, true} {
+		name := fmt.Sprintf("value/backpressure=%v/n=2/write times going backwards", bp)
+		h.Sched(name, -1, -1, valueBody(name, 2, bp, false, true), hx.StdOracle)
 	}
 	for _, coll := range []bool{false, true} {
 		for n := 2; n <= 3; n++ {
